@@ -478,14 +478,10 @@ func (p *bprover) loopInvariant(l *natLoop, e blin) bool {
 				return false
 			}
 		case *memVal:
-			if v.blk != nil && l.body[v.blk] {
+			// contents since a write inside the loop change from iteration to
+			// iteration, and so does a location whose address is computed in the loop
+			if memValVaries(v, l.body) {
 				return false
-			}
-			// contents since a write inside the loop change from iteration to iteration
-			for _, sb := range v.sites {
-				if l.body[sb] {
-					return false
-				}
 			}
 		}
 	}
